@@ -197,6 +197,20 @@ pub fn run(seed: u64, n: usize, extra: &[String]) -> String {
                     let added: Vec<Attribution> = attrs.iter().filter(|a| a.ts == 11).cloned().collect();
                     if let Some(p) = check_bounds(&added, &new) {
                         viol.push(json!({"kind": "C16/bounds-unattributed", "problem": p, "content": trunc(&new)}));
+                    } else if new.len() <= 4000 {
+                        // the filled-in ranges are exactly the complement of what the prior set covers: every character is covered by the
+                        // prior set or by the filler, never by both (already attributed text keeps its author) and never by neither
+                        *counters.entry("unattributed_complement_checks").or_insert(0) += 1;
+                        for (idx, ch) in new.char_indices() {
+                            let end = idx + ch.len_utf8();
+                            let by_prior = prior.iter().any(|a| a.start < end && a.end > idx);
+                            let by_filler = added.iter().any(|a| a.start < end && a.end > idx);
+                            if by_prior == by_filler {
+                                viol.push(json!({"kind": if by_prior { "C16/unattributed-fill-overlaps-attributed-text" } else { "C16/unattributed-fill-leaves-a-gap" },
+                                                 "at": idx, "content": trunc(&new), "prior": fmt_attrs(&prior), "filler": fmt_attrs(&added)}));
+                                break;
+                            }
+                        }
                     }
                 }
             }
